@@ -167,6 +167,14 @@ def check_mode(case):
     want_type = ContractType.ApprovalProgram if first == "P" else ContractType.LogicSig
     if teal.contract_type != want_type:
         raise Violation("contract-type", f"{teal.contract_type} != {want_type}\n{src}")
+    from tealer.printers.human_summary import PrinterHumanSummary
+
+    with adapter.captured() as (out, _err):
+        PrinterHumanSummary(teal).print()
+    shown = out.getvalue()
+    want_word = {"A": "Any", "S": "Stateless", "P": "Stateful"}[first]
+    if "Program version: 8\n" not in shown or f"Mode: {want_word}\n" not in shown:
+        raise Violation("human-summary", f"human-summary shows {shown.strip().splitlines()[:2]}, expected version 8 / mode {want_word}\n{src}")
     txn = tl.groups[0].transactions[0]
     as_app = txn.application is not None
     as_lsig = txn.logic_sig is not None
